@@ -54,7 +54,8 @@ class Session:
         self.geos = [Geo(s) for s in world["labware"]]
         self.input_arrays = {}
         self.labs = [build_labware(self.rt, s, self.input_arrays, i) for i, s in enumerate(world["labware"])]
-        self.input_copies = {i: a.copy() for i, a in self.input_arrays.items() if isinstance(i, int)}
+        import copy as _copy
+        self.input_copies = {i: _copy.deepcopy(a) for i, a in self.input_arrays.items() if isinstance(i, int)}
         self.wl = build_worklist(self.rt, world, scratch=scratch, device=self.device)
         self.events = []
         self.nrec = 0
@@ -89,6 +90,10 @@ class Session:
             out.fired_at = inj.fired_at
             self.total_lines += inj.count
         out.exc_type = classify(self.rt, out.exc) if not out.injected else "injected"
+        if op["op"] == "set_limits" and out.ok:
+            from .geom import dec as _dec
+            self.geos[op["lab"]].vmin = float(_dec(op["min"]))
+            self.geos[op["lab"]].vmax = float(_dec(op["max"]))
         recs = list(self.wl)
         out.new_records = recs[before:] if len(recs) >= before else []
         self.log_event(op, out)
